@@ -190,7 +190,16 @@ example :
       functions compute, and nothing else (Props/C07P.lean, `c07_translated_setReaderPos`, `…_op`, `…_frame`, built and
       audited with this property); here only that all of them were translated on this run.  (The four full-text facts that
       stood here for these functions are subsumed by that tie.)
-    * AppendNode, (*NodeList).Append, the copying result handler and the sequence buffer write of parseNext — whose bodies
+    * ast.AppendNode and (*NodeList).Append — the heart of this property: `append` into the spare capacity of a shared
+      backing array — are TRANSLATED at heap level on every run as well (same namespace: the pointer receiver written
+      through, the type switch, the flattening loop, the EMPTY scan with its early return, `append` in place when len < cap
+      and by the growth policy otherwise) and the machine's `appendNodeCore` / `nlAppend` / `Op.appendNode` /
+      `Op.optionalAppend` / `Op.nlAppend` are PROVED to compute what the translated functions compute, header and heap
+      (Props/C07P.lean, `c07_translated_appendNode`, `c07_translated_nodeListAppend`, `c07_translated_append`,
+      `c07_translated_append_frame`; the clip fact `c07p_clipped_append_fresh` and the D1 witness
+      `c07p_unclipped_append_corrupts` are stated there about the translated code); here only that both were translated on
+      this run.  (The two slice-operation skeletons that stood here for these functions are subsumed by that tie.)
+    * the copying result handler and the sequence buffer write of parseNext — whose bodies
       are translated at value level on every run and proved equal to the model's functions (Props/C01P.lean,
       `c01p_context_cache_append`, `c01p_sequence_machinery`, built and audited with this property) — by their SLICE-LEVEL
       skeleton: the calls of append / copy / make, the slice literals and slice expressions, the element writes and the calls
@@ -201,9 +210,9 @@ example :
       functions are subsumed by translation + skeleton.)
     * Memoize with its capacity clip before the store (structural; the clip may stand in a helper), Any, Optional. -/
 theorem c07_source_facts_ast :
-    FactsAst.appendNodeSliceOps = ["_.Append(_)", "_:=NodeList([]parsley.Node{_})", "_.Append(_)"] ∧
+    "AppendNode" ∈ FactsAstProg.translatedAst ∧
     "SetReaderPos" ∈ FactsAstProg.translatedAst ∧
-    FactsAst.nodeListAppendSliceOps = ["_.Append(_)", "*_=append(*_,_)", "*_=append(*_,_)"] ∧
+    "NodeList_Append" ∈ FactsAstProg.translatedAst ∧
     "NodeList_SetReaderPos" ∈ FactsAstProg.translatedAst ∧
     "TerminalNode_SetReaderPos" ∈ FactsAstProg.translatedAst ∧
     "NonTerminalNode_SetReaderPos" ∈ FactsAstProg.translatedAst ∧
@@ -211,6 +220,6 @@ theorem c07_source_facts_ast :
     FactsAst.seqParseNextSliceOps = ["_.nodes=append(_.nodes,_)", "_.nodes[_]=_"] ∧
     FactsAst.memoizeClips = true ∧ FactsAst.memoizeClipsBeforeSave = true ∧
     FactsAst.anyAppendNodeCalls = ["node,node"] ∧ FactsAst.optionalAppendNodeCalls = ["node,empty"] :=
-  ⟨rfl, by decide, rfl, by decide, by decide, by decide, rfl, rfl, rfl, rfl, rfl, rfl⟩
+  ⟨by decide, by decide, by decide, by decide, by decide, by decide, rfl, rfl, rfl, rfl, rfl, rfl⟩
 
 end PV.Slice
